@@ -79,12 +79,24 @@ def verdicts(case, loop, name, ptrs):
 
     if fam in ('digest', 'digest_i'):
         call('sha256_digest_checker', lambda: loop.run(sha256_digest_checker(name, ptrs)))
+        # the same check through ONE composed verifier object that serves every packet of this process
+        call('union_checker(sha256_digest_checker) [reused]', lambda: loop.run(_composed('digest')(name, ptrs)))
     else:
         call(f'verify_{fam}', lambda: P.lib_verify(sk, ptrs))
         chk = P.lib_checker(sk, P.expected_kl(case['signer']))
         call({'rsa': 'RsaChecker', 'ecdsa': 'EccChecker', 'hmac': 'HmacChecker', 'ed25519': 'Ed25519Checker'}[fam],
              lambda: loop.run(chk(name, ptrs)))
     return out
+
+
+_COMPOSED = {}
+
+
+def _composed(kind):
+    from ndn.security.validator.digest_validator import union_checker
+    if kind not in _COMPOSED:
+        _COMPOSED[kind] = union_checker(sha256_digest_checker)
+    return _COMPOSED[kind]
 
 
 def cat_views(parts):
